@@ -143,6 +143,9 @@ def _run(sels, pays, choices, tadv):
         if tadv == i:
             stubs.advance(10.0)
         ev = h.event(_letter(sels[i], pays[i]))
+        if st.main_flow_state.status == v2.FlowStatus.WAITING:
+            v2.start(st)  # like RuntimeV2_x.process_events: a finished main flow is started again before the next event
+            h.observe(st.outgoing_events)
         v2.run_to_completion(st, ev)
         h.observe(st.outgoing_events)
         bad = invariant(st)
